@@ -1,6 +1,7 @@
 import RV.C20.Props
 import RV.C20.TextProps
 import RV.C20.ValuesProps
+import RV.C20.ConnProps
 open RV.C20
 #print axioms remote_mirrors
 #print axioms deferred_visibility
@@ -19,3 +20,5 @@ open RV.C20
 #print axioms query_text_means_pattern
 #print axioms named_graph_rewrite_means_move
 #print axioms values_block_means_join
+#print axioms request_assembly_means_op
+#print axioms accept_names_result_format
